@@ -96,7 +96,8 @@ def build(case):
                     a = nprng.normal() * 0.3 * abs(G[t][i][j])
                     M[i, j] = M[i, j] + a
                     M[j, i] = M[j, i] - a
-        content.append(M)
+        # the memory layout of the matrices handed over must not matter (column-major arrays are passed to LAPACK without a copy)
+        content.append(np.asfortranarray(M) if case.get('forder') else M)
     return {'Psi': Psi, 'E': E, 'f': f, 'G': G, 'corr': pe.Corr(content), 'W': np.linalg.inv(Psi)}
 
 
@@ -792,7 +793,7 @@ def gen_case(ctx):
     ts = rng.randint(t0 + 1, T - 1)
     case = {'what': what, 'seed': seed, 'N': N, 'T': T, 't0': t0, 'ts': ts,
             'kind': rng.choice(['exact', 'exact', 'crossing']),
-            'nonsym': rng.random() < 0.3}
+            'nonsym': rng.random() < 0.3, 'forder': rng.random() < 0.4}
     r = rng.random()
     if r < 0.35:
         cand = [t for t in range(T) if t not in (t0, ts)]
